@@ -472,6 +472,15 @@ def r01_7(ctx):
     ctx.decide('R01.7', mb.qual, 'boundary rule: one node at the face coordinate with weight 1', ok, mb.node)
 
 
+def r01_9(ctx):
+    """The compiled kernel computes the integrand only if common-subexpression extraction merges equal expressions
+    exclusively: the structural hash must separate expressions that differ in an identifying attribute or in the order
+    of their operands (analysis shared with R06.1/R06.2 and R13.1)."""
+    import rules.C06 as c06
+    c06.r06_1(ctx, rule='R01.9')
+    c06.hash_combiners(ctx, 'R01.9')
+
+
 def run(ctx):
     r01_1(ctx)
     r01_2(ctx)
@@ -481,3 +490,4 @@ def run(ctx):
     r01_5(ctx)
     r01_6(ctx)
     r01_7(ctx)
+    r01_9(ctx)
